@@ -5,7 +5,15 @@ Every `G:` region builds ONE decorator object `dec = guarded(cond)` and ONE deco
 `f = dec(fn)`; the region is the call `f(body)`.  `R(` … `)` inside it is a call of that same `f`
 from within `fn` (recursion of a decorated function), `RS(` … `)` decorates another function with
 the same `dec` and calls it (one decorator object shared by caller and callee).  Both activate the
-decorator object again while it is active; the triple is probed around these activations too."""
+decorator object again while it is active; the triple is probed around these activations too.
+
+`F:<k>:<c>(` then-events `/` else-events `)` is a selection whose branches are FUNCTIONS, run through the library's own
+`pysnark.branching.if_then_else(cond, f, g)`: a third way of entering a region besides guarded() and the block API (`FT:` only
+the then branch is a function, `FE:` only the else branch; the other one is the int 7).  The triple is probed around the call,
+whichever way it ends.
+
+Configuration `ign=1`: the USER has selected the error-suppression mode through the real API
+`pysnark.runtime.ignore_errors(True)` before the history starts; it is part of the triple every region has to bring back."""
 import sys, os
 sys.path.insert(0, os.path.dirname(os.path.abspath(__file__)))
 import worker as W
@@ -13,6 +21,7 @@ import canon
 R = W.R; B = W.B
 from pysnark.runtime import LinComb, PrivVal, guarded, add_guard, restore_guard
 from pysnark.boolean import PrivValBool
+from pysnark.branching import if_then_else
 
 
 class Boom(Exception):
@@ -35,29 +44,36 @@ def identity():
 
 
 def parse(toks, pos=0):
+    """returns (events, next position, terminator) where terminator is `)`, `/` or None (end of input)"""
     out = []
     while pos < len(toks):
         t = toks[pos]
-        if t == ")":
-            return out, pos + 1
+        if t in (")", "/"):
+            return out, pos + 1, t
         if t == "!":
             out.append(("raise",)); pos += 1
         elif t == "!b":
             out.append(("raiseb",)); pos += 1
         elif t == "T(":
-            body, pos = parse(toks, pos + 1); out.append(("try", body))
+            body, pos, _ = parse(toks, pos + 1); out.append(("try", body))
         elif t in ("R(", "RS("):
-            body, pos = parse(toks, pos + 1); out.append(("reenter", "recursion" if t == "R(" else "shared", body))
+            body, pos, _ = parse(toks, pos + 1); out.append(("reenter", "recursion" if t == "R(" else "shared", body))
         elif t.startswith(("G:", "A:")):
-            _, k, c = t.split(":"); body, pos = parse(toks, pos + 1)
+            _, k, c = t.split(":"); body, pos, _ = parse(toks, pos + 1)
             out.append(("guarded" if t[0] == "G" else "raw", k, int(c[:-1]), body))
+        elif t.startswith(("F:", "FT:", "FE:")):
+            form, k, c = t.split(":"); a, pos, term = parse(toks, pos + 1)
+            b = []
+            if term == "/":
+                b, pos, _ = parse(toks, pos)
+            out.append(("select", form, k, int(c[:-1]), a, b))
         elif t.startswith("lt:"):
             _, a, b = t.split(":"); out.append(("lt", int(a), int(b))); pos += 1
         elif t.startswith("az:"):
             out.append(("az", int(t.split(":")[1]))); pos += 1
         else:
             raise ValueError(t)
-    return out, pos
+    return out, pos, None
 
 
 def cond(k, c):
@@ -121,6 +137,22 @@ def run(evs, p, bad, stk=()):
             else:                           # the same decorator object decorates the callee
                 callee = r.dec(lambda: run(e[2], p, bad, stk))
                 probed(callee, "re-entry by sharing", r, p, bad)
+        elif e[0] == "select":
+            _, form, k, c, tevs, fevs = e
+            cv = cond(k, c)                 # may raise (non-boolean for B): before the selection
+            def tf():
+                run(tevs, p, bad, stk); return 3
+            def ff():
+                run(fevs, p, bad, stk); return 5
+            before = triple(p); ident = identity()
+            try:
+                if_then_else(cv, tf if form in ("F", "FT") else 7, ff if form in ("F", "FE") else 7)
+            finally:
+                after = triple(p)
+                if after != before or identity() != ident:
+                    same = " (same values, different objects)" if after == before else ""
+                    bad.append(f"selection: after if_then_else({k}:{c}, {'f' if form in ('F', 'FT') else '7'}, {'g' if form in ('F', 'FE') else '7'}) "
+                               f"with branch functions: {after} (before: {before}){same}")
         elif e[0] == "raw":
             cv = cond(e[1], e[2])
             bak = add_guard(cv)
@@ -138,7 +170,9 @@ def main():
         try:
             cfg = dict((k, int(v)) for k, v in (kv.split("=") for kv in f[2].split(",")))
             W.reset({"p": cfg["p"], "bl": cfg["bl"]})
-            evs, _ = parse(f[3].split())
+            if cfg.get("ign"):
+                R.ignore_errors(True)       # the user's own choice, made through the real API before any region is entered
+            evs, _, _ = parse(f[3].split())
             bad = []
             status = "ok"
             try:
